@@ -274,6 +274,10 @@ def rule_report(rep):
     wo = order.index("WrongNumberOfOutputChannels") if "WrongNumberOfOutputChannels" in order else 99
     rep.ob(R, "validate_buffers/order", 0 <= mi < min(ii, oi) and wi < ii and wo < oi,
            "count tests must precede the per-channel loops that index mask[chan] / the buffers (order found: %s)" % order, loc(fn))
+    # the only way to succeed is to pass every test: no early `return Ok(..)` that skips the remaining checks
+    early_ok = [x for x in walk(fn["body"]) if x.get("k") == "return" and not (x.get("e") is not None and show(x["e"]).startswith("Err("))]
+    rep.ob(R, "validate_buffers/single-success-exit", not early_ok,
+           "validate_buffers can return success early (line %s) and skip the checks that follow it" % [x.get("ln") for x in early_ok], loc(fn, early_ok[0]) if early_ok else loc(fn))
     # writes nothing
     writes = [x for x in walk(fn["body"]) if x.get("k") in ("assign", "opassign")]
     muts = [x for x in walk(fn["body"]) if x.get("k") == "mcall" and x["name"] in ir.MUTATING_METHODS and x["name"] not in ("iter_mut", "as_mut")]
@@ -432,15 +436,20 @@ def run(rep):
     rep.guarded("R-C13-report", rule_report)
     rep.guarded("R-C13-args", rule_args)
     rep.guarded("R-C13-ctor", rule_ctor)
+    # "instead of panicking": explicit panic sites anywhere in the crate (constructors call make_interpolator / make_sincs before validating) - shared with C03
+    import C03
+    rep.guarded("R-C03-panic-sites", C03.rule_panics)
     rep.floor("R-C13-mask", 1 + 7 + 3)
     rep.floor("R-C13-order", 7 * 4)
-    rep.floor("R-C13-report", 5 + 2 + 2 + 2)
+    rep.floor("R-C13-report", 5 + 2 + 2 + 2 + 1)
+    rep.floor("R-C03-panic-sites", 21)
     rep.floor("R-C13-args", 14)
     rep.floor("R-C13-ctor", 7 + 9)
     rep.clause("R-C13-mask", "every length-sensitive use of the caller's mask (copy_from_slice, indexing) is preceded by a length test returning WrongNumberOfMaskChannels")
     rep.clause("R-C13-order", "before validate_buffers(..)? succeeds only the per-call mask scratch is written and caller buffers are untouched; no error is produced after mutation starts")
     rep.clause("R-C13-report", "in validate_buffers each error reports exactly the pair that was compared, measures the right argument, uses != for counts and < for lengths, and writes nothing")
     rep.clause("R-C13-args", "each process_into_buffer passes (wave_in, wave_out, &self.channel_mask, self.nbr_channels, ..) and the channel count is immutable")
+    rep.clause("R-C03-panic-sites", "no unreviewed explicit panic site exists (the sinc constructors run make_interpolator / make_sincs before validate_ratios): shared with C03")
     rep.clause("R-C13-ctor", "every public constructor validates ratios / sample rates first (or tail-delegates); guards evaluated on order representatives")
     rep.not_decided.append("panics inside dependency code for accepted-but-absurd constructor arguments (sub_chunks = 0, sizes near usize::MAX)")
     rep.not_decided.append("process_partial_into_buffer pads to nbr_channels() and therefore cannot report a wrong input channel count (observation, outside the statement)")
